@@ -342,3 +342,23 @@ PROPS["C18"] = dict(
     engines=[pbt("c18_truncation", libs=["rapidcheck", "snappy", "lz4"], ldflags=["-Wl,--wrap=fwrite,--wrap=fflush,--wrap=fclose"], quick=dict(cases=24, size=60, procs=8), thorough=dict(cases=400, size=100, procs=16))],
     min_evaluations=dict(quick=20000, thorough=400000),
 )
+
+PROPS["C19"] = dict(
+    title="Allocation failure gives a clean error or correct result, nothing else",
+    level="fault_enumeration",
+    design_ref="DESIGN.md section 8, C19",
+    level_text=("Fault enumeration: for each generated scenario (schema build past the capacities, write of a multi-type nullable two-row-group table per codec through the "
+                "path and FILE* writers, open + metadata + full column read per I/O mode of carquet-written and of reference-written dictionary files, batch read with "
+                "projection, statistics builder + column index builder + Bloom filter lifecycles) a counting run measures K, the number of malloc/calloc/realloc/strdup "
+                "requests issued by carquet's objects (link-time --wrap; shared libraries and the C++ harness do not pass through the wrappers), and then the k-th request "
+                "fails for every k < K. Oracle: no ASan/UBSan report; each API call returns an error, or reports success and then the effect equals the fault-free run's (the "
+                "written file decodes in the independent reader to the same table / the values read are the same / the same batches); all handles are closed normally "
+                "afterwards; LeakSanitizer's recoverable check finds nothing."),
+    level_note="exhaustive over the allocation index k of each generated scenario; scenarios are sampled; a crash on an injected failure ends the process and is reported with the scenario as replay case",
+    technique="fault injection enumerated over every allocation request of generated scenarios (link-time malloc wrap under ASan/LSan), error-or-identical-effect oracle",
+    rule=("evaluations count (scenario, k) runs in which the k-th allocation really failed. Non-trivial: a scenario in which some failing request lies behind the third "
+          "allocation (i.e. after the handle was created)."),
+    assumptions=["only allocation requests made by carquet's own objects are failed; zlib/zstd/libc internals are not touched"],
+    engines=[pbt("c19_alloc", libs=["rapidcheck", "snappy", "lz4"], ldflags=["-Wl,--wrap=malloc,--wrap=calloc,--wrap=realloc,--wrap=strdup"], quick=dict(cases=40, size=60, procs=8), thorough=dict(cases=800, size=100, procs=16))],
+    min_evaluations=dict(quick=5000, thorough=150000),
+)
